@@ -175,6 +175,8 @@ pub enum Ty {
     Sc(Scalar),
     /// `serde_json::Value` as a *target*
     Json,
+    /// `PhantomData<u8>`: accepts any value at all and carries nothing
+    Phantom,
     /// the probe wrapper `P<T>` (mc-core)
     P(Box<Ty>),
     Opt(Box<Ty>),
@@ -221,6 +223,8 @@ pub enum Deny {
     No,
     Default,
     Custom,
+    /// `deny_unknown_fields = f` where `f` returns a foreign error (`ConvErr`)
+    CustomForeign,
 }
 
 #[derive(Clone, Copy, Debug, PartialEq, Eq, Hash)]
@@ -250,8 +254,14 @@ pub struct FieldSpec {
     pub conv: Conv,
     pub map: bool,
     pub missing_fn: bool,
+    /// with `missing_fn`: the function returns a *foreign* error (`ConvErr`), which the derive
+    /// hands to the container's error type through `MergeWithError<ConvErr>`
+    pub missing_foreign: bool,
     /// `#[deserr(error = RecB)]` on the field
     pub err_b: bool,
+    /// a `#[serde(rename = "..")]` helper attribute next to the deserr ones: registered by the
+    /// derive, and without any effect on the keys
+    pub serde_rename: Option<String>,
 }
 
 impl FieldSpec {
@@ -265,7 +275,9 @@ impl FieldSpec {
             conv: Conv::None,
             map: false,
             missing_fn: false,
+            missing_foreign: false,
             err_b: false,
+            serde_rename: None,
         }
     }
     pub fn has_default(&self) -> bool {
@@ -284,12 +296,18 @@ pub struct StructSpec {
     pub validate: bool,
     /// `#[deserr(error = RecA)]` (otherwise generic over the error type)
     pub concrete: bool,
+    /// declared as `struct S<T>` whose first field has the declared type `T` (with
+    /// `needs_predicate`); every use instantiates `T` with that field's `ty`
+    pub generic: bool,
+    /// the `validate` function returns the container's own error type (`-> __Deserr_E` / `-> RecA`)
+    /// instead of the foreign `ValErr`
+    pub same_err: bool,
     pub fields: Vec<FieldSpec>,
 }
 
 impl StructSpec {
     pub fn plain(fields: Vec<FieldSpec>) -> Self {
-        StructSpec { style: 0, rename_all: None, deny: Deny::No, validate: false, concrete: false, fields }
+        StructSpec { style: 0, rename_all: None, deny: Deny::No, validate: false, concrete: false, generic: false, same_err: false, fields }
     }
 }
 
@@ -312,6 +330,8 @@ pub struct EnumSpec {
     pub deny: Deny,
     pub validate: bool,
     pub concrete: bool,
+    /// see `StructSpec::same_err`
+    pub same_err: bool,
     pub variants: Vec<VariantSpec>,
 }
 
@@ -324,6 +344,8 @@ pub struct ConvSpec {
     pub by_ref: bool,
     pub validate: bool,
     pub concrete: bool,
+    /// the `try_from` (and `validate`) functions return the container's own error type
+    pub same_err: bool,
 }
 
 #[derive(Clone, Debug, PartialEq, Eq, Hash)]
@@ -397,18 +419,21 @@ impl Catalogue {
         match &self.items[i] {
             Item::Struct(s) => {
                 s.concrete
-                    || s.validate
+                    || (s.validate && !s.same_err)
+                    || s.deny == Deny::CustomForeign
+                    || s.fields.iter().any(|f| f.missing_foreign)
                     || s.fields.iter().any(|f| matches!(f.conv, Conv::TryFrom { .. }))
                     || s.fields.iter().any(|f| self.ty_constrains_(&f.ty, seen))
             }
             Item::Enum(e) => {
                 e.concrete
-                    || e.validate
+                    || (e.validate && !e.same_err)
+                    || e.deny == Deny::CustomForeign
                     || e.variants.iter().flat_map(|v| v.fields.iter().flatten()).any(|f| {
-                        matches!(f.conv, Conv::TryFrom { .. }) || self.ty_constrains_(&f.ty, seen)
+                        f.missing_foreign || matches!(f.conv, Conv::TryFrom { .. }) || self.ty_constrains_(&f.ty, seen)
                     })
             }
-            Item::Conv(c) => c.concrete || c.fallible || c.validate || self.ty_constrains_(&c.via, seen),
+            Item::Conv(c) => c.concrete || ((c.fallible || c.validate) && !c.same_err) || self.ty_constrains_(&c.via, seen),
         }
     }
 
@@ -418,7 +443,7 @@ impl Catalogue {
 
     fn ty_constrains_(&self, t: &Ty, seen: &mut Vec<usize>) -> bool {
         match t {
-            Ty::Sc(_) | Ty::Json | Ty::Cs(_) => false,
+            Ty::Sc(_) | Ty::Json | Ty::Phantom | Ty::Cs(_) => false,
             Ty::P(t) | Ty::Opt(t) | Ty::Bx(t) | Ty::Vec(t) | Ty::HSet(t) | Ty::BSet(t) | Ty::Arr(t, _) => {
                 self.ty_constrains_(t, seen)
             }
@@ -436,7 +461,7 @@ impl Catalogue {
 
     fn ty_generic_(&self, t: &Ty, seen: &mut Vec<usize>) -> bool {
         match t {
-            Ty::Sc(_) | Ty::Json | Ty::Cs(_) => true,
+            Ty::Sc(_) | Ty::Json | Ty::Phantom | Ty::Cs(_) => true,
             Ty::P(t) | Ty::Opt(t) | Ty::Bx(t) | Ty::Vec(t) | Ty::HSet(t) | Ty::BSet(t) | Ty::Arr(t, _) => {
                 self.ty_generic_(t, seen)
             }
@@ -468,14 +493,17 @@ impl Catalogue {
         let needs_fields = |fields: &[FieldSpec], deny: Deny, validate: bool| -> bool {
             // a second `MergeWithError<_>` bound (ConvErr / ValErr) makes the error type
             // returned by a *generic* custom function ambiguous
-            let any_try = validate || fields.iter().any(|f| matches!(f.conv, Conv::TryFrom { .. }));
+            // (a custom function returning the foreign ConvErr adds such a bound too, but is not
+            // itself ambiguous: its error type is named by its signature)
+            let any_foreign = deny == Deny::CustomForeign || fields.iter().any(|f| f.missing_foreign);
+            let any_try = validate || any_foreign || fields.iter().any(|f| matches!(f.conv, Conv::TryFrom { .. }));
             fields.iter().any(|f| f.err_b)
-                || (any_try && (deny == Deny::Custom || fields.iter().any(|f| f.missing_fn)))
+                || (any_try && (deny == Deny::Custom || fields.iter().any(|f| f.missing_fn && !f.missing_foreign)))
                 || fields.iter().any(|f| self.ty_constrains(&f.ty))
         };
         match item {
             Item::Struct(mut s) => {
-                if needs_fields(&s.fields, s.deny, s.validate) {
+                if needs_fields(&s.fields, s.deny, s.validate && !s.same_err) {
                     s.concrete = true;
                 }
                 Item::Struct(s)
@@ -483,7 +511,7 @@ impl Catalogue {
             Item::Enum(mut e) => {
                 let all: Vec<FieldSpec> =
                     e.variants.iter().flat_map(|v| v.fields.iter().flatten()).cloned().collect();
-                if needs_fields(&all, e.deny, e.validate) {
+                if needs_fields(&all, e.deny, e.validate && !e.same_err) {
                     e.concrete = true;
                 }
                 Item::Enum(e)
@@ -502,6 +530,8 @@ impl Catalogue {
 pub fn probed(t: &Ty) -> bool {
     match t {
         Ty::P(_) => true,
+        // a marker never looks at its value: nothing to bracket
+        Ty::Phantom => true,
         Ty::Opt(t) | Ty::Bx(t) => probed(t),
         _ => false,
     }
@@ -512,7 +542,7 @@ pub fn probed(t: &Ty) -> bool {
 pub fn check_probes(t: &Ty, cat: &Catalogue) {
     fn go(t: &Ty, cat: &Catalogue, seen: &mut Vec<usize>) {
         match t {
-            Ty::Sc(_) | Ty::Json | Ty::Cs(_) => {}
+            Ty::Sc(_) | Ty::Json | Ty::Phantom | Ty::Cs(_) => {}
             Ty::P(t) | Ty::Opt(t) | Ty::Bx(t) => go(t, cat, seen),
             Ty::Vec(t) | Ty::HSet(t) | Ty::BSet(t) | Ty::Arr(t, _) => {
                 assert!(probed(t), "element type not probed: {t:?}");
